@@ -169,13 +169,25 @@ def modifies_known_mutable(obj: t.Any, attr: str) -> bool:
     >>> modifies_known_mutable([], "index")
     False
 
+    The classes themselves (and parameterized aliases of them) are treated
+    like their instances: ``dict.clear`` is the same method, it only takes
+    the object to modify as an argument.
+
+    >>> modifies_known_mutable(dict, "clear")
+    True
+
     If called with an unsupported object, ``False`` is returned.
 
     >>> modifies_known_mutable("foo", "upper")
     False
     """
+    if isinstance(obj, types.GenericAlias):
+        obj = obj.__origin__
+
     for typespec, unsafe in _mutable_spec:
-        if isinstance(obj, typespec):
+        if isinstance(obj, typespec) or (
+            isinstance(obj, type) and issubclass(obj, typespec)
+        ):
             return attr in unsafe
     return False
 
